@@ -16,7 +16,7 @@ from .base import BaseProp
 from .core import canon, dec, derive, enc, fast_digest
 from .known import classify
 
-SEEDS = [float("nan"), 0, 1, -1, 7, 42, 2 ** 31, 2 ** 64 + 3, -(2 ** 70), 10 ** 30, 0.0, 1.5, -2.25, 1e300,
+SEEDS = [float("nan"), 0, 1, -1, -2, 7, 7 + (2 ** 61 - 1), 42, 2 ** 31, 2 ** 64 + 3, -(2 ** 70), 10 ** 30, 0.0, 1.5, -2.25, 1e300,
          "", "seed", "日本", b"", b"\x00\xff", "a" * 100]
 
 
